@@ -342,23 +342,40 @@ def rule_sentinel(ctx):
     # server writes
     fs = ctx.index.func(TLSCONN + "_handshakeServerAsyncHelper")
     g = ctx.an.cfg(fs)
-    writes = [n for n in g.nodes if n.kind == "stmt" and "DOWNGRADE_SENTINEL" in norm(n.ast)]
     creates = [n for n in g.nodes if n.kind == "stmt" and "serverHello.create(" in norm(n.ast)]
-    exp = {"TLS_1_2_DOWNGRADE_SENTINEL": "version == (3, 3) and settings.maxVersion > (3, 3)",
-           "TLS_1_1_DOWNGRADE_SENTINEL": "version < (3, 3) and settings.maxVersion >= (3, 3)"}
-    for nm, cond in exp.items():
-        w = [n for n in writes if nm in norm(n.ast)]
-        ok = False
-        if w and creates:
-            ctl = [t for t in g.nodes if t.kind == "test" and w[0] in [m for m, l in t.succ if l == "T"]]
-            ok = bool(ctl) and norm(ctl[0].expr) == cond and norm(w[0].ast) == "random[-8:] = " + nm
-            seen = g.reach(g.normal_succ(creates[0]))
-            ok = ok and w[0].id not in seen
-            # the random passed to create is the one written
-            ok = ok and re.search(r"serverHello\.create\(self\.version, random,", norm(creates[0].ast)) is not None
-        ctx.check(R, ok, fs.qname, "server writes %s under `%s` before ServerHello.create" % (nm, cond),
-                  "the server does not mark its ServerHello.random with %s exactly when it negotiates a "
-                  "version below its maximum" % nm, fs.loc(w[0].ast) if w else fs.loc())
+    if not creates:
+        raise AnalysisError("C04.SENTINEL: ServerHello.create not found in _handshakeServerAsyncHelper")
+    cr = [c for c in calls_in(creates[0].ast) if call_name(c) == "create"][0]
+    rnd = cr.args[1] if len(cr.args) > 1 else None
+    if not isinstance(rnd, ast.Name):
+        raise AnalysisError("C04.SENTINEL: the random passed to ServerHello.create is not a local")
+
+    def marks(name):
+        """statement `<the random passed to create>[-8:] = <name>`"""
+        def pred(st):
+            return isinstance(st, ast.Assign) and len(st.targets) == 1 and isinstance(st.targets[0], ast.Subscript) \
+                and isinstance(st.targets[0].value, ast.Name) and st.targets[0].value.id == rnd.id \
+                and norm(st.targets[0].slice) == "-8:" and norm(st.value) == name
+        return pred
+    from .common import spec_rows
+    spec_rows(ctx, R, TLSCONN + "_handshakeServerAsyncHelper", [
+        dict(what="server marks ServerHello.random with the downgrade sentinel exactly when it negotiates below its maximum",
+             dom={"version": [(3, 0), (3, 2), (3, 3)], "settings.maxVersion": [(3, 1), (3, 2), (3, 3), (3, 4)],
+                  "result == None": [False]},
+             when=lambda e: e["version"] <= e["settings.maxVersion"],
+             abort=lambda e: False,
+             effects={"TLS 1.2 sentinel": (marks("TLS_1_2_DOWNGRADE_SENTINEL"),
+                                           lambda e: e["version"] == (3, 3) and e["settings.maxVersion"] > (3, 3)),
+                      "TLS 1.1 sentinel": (marks("TLS_1_1_DOWNGRADE_SENTINEL"),
+                                           lambda e: e["version"] < (3, 3) and e["settings.maxVersion"] >= (3, 3))},
+             msg="the server does not mark its ServerHello.random with the TLS 1.3 downgrade sentinels exactly when "
+                 "it negotiates a version below its maximum (RFC 8446 4.1.3)")])
+    writes = [n for n in g.nodes if n.kind == "stmt" and (marks("TLS_1_2_DOWNGRADE_SENTINEL")(n.ast)
+                                                           or marks("TLS_1_1_DOWNGRADE_SENTINEL")(n.ast))]
+    seen = g.reach(g.normal_succ(creates[0]))
+    ctx.check(R, len(writes) >= 2 and not any(w.id in seen for w in writes), fs.qname,
+              "sentinels written before ServerHello.create", "a downgrade sentinel is written after the ServerHello "
+              "was built from the random", fs.loc(creates[0].ast))
     # client checks
     fc = ctx.index.func(TLSCONN + "_handshakeClientAsyncHelper")
     gc = ctx.an.cfg(fc)
